@@ -239,6 +239,7 @@ def evaluate(ctx, rng, tier, focus, budget, broken):
         big.append((gen.mkcell(8, 14, [0] * 8), 262))
         big.append((gen.mkcell(9, 38, [0] * 8 + [3]), 258))                    # a hexagon next to a pentagon
         big.append((gen.mkcell(8, 20, [3] * 8), 257))                          # far from every pentagon (fast walk)
+    if tier != "quick":     # (one harness run must stay below the per-run timeout: 150 s quick, 900 s thorough)
         for _ in range(12):
             res = rng.randrange(6, 12)
             bc = rng.choice(gen.PENT)
@@ -247,7 +248,7 @@ def evaluate(ctx, rng, tier, focus, budget, broken):
                 ds[-1] = rng.randrange(2, 7)
             if rng.random() < 0.3 and res > 1:
                 ds[-2] = rng.randrange(2, 7)
-            big.append((gen.mkcell(res, bc, gen.fix_pent(bc, ds)), rng.choice([127, 128, 129, 255, 256, 257, 300, 513])))
+            big.append((gen.mkcell(res, bc, gen.fix_pent(bc, ds)), rng.choice([127, 128, 129, 255, 256, 257, 300])))
     lops = [f"diskcheck {gen.hx(h)} {k}" for h, k in big]
     lout = ctx.c(lops, tag="bigdisks")
     big_cells = 0
